@@ -46,7 +46,10 @@ Qed.
 
 Lemma firstn_split_add {A} (s : list A) m l : m <= l -> firstn m s ++ firstn (l - m) (skipn m s) = firstn l s.
 Proof.
-  intros H. replace l with (m + (l - m)) at 2 by lia. rewrite firstn_add. reflexivity.
+  revert s l. induction m as [|m IH]; intros s l H; simpl.
+  - rewrite Nat.sub_0_r. reflexivity.
+  - destruct l as [|l]; [lia|]. destruct s as [|x s]; simpl; [apply firstn_nil|].
+    f_equal. apply IH. lia.
 Qed.
 
 (* ---- constants (re-checked when the generated constants change) ---------------------- *)
@@ -86,28 +89,42 @@ Proof.
   unfold v in *. lia.
 Qed.
 
-Lemma record_length id d : length (record id d) = 2 + length id + 4 + length d.
-Proof. unfold record, be32. rewrite !app_length. simpl. lia. Qed.
+Definition rprefix (id : bytes) (L : nat) : bytes := [combined_prefix; 0%N] ++ id ++ be32 L.
+
+Lemma record_eq id d : record id d = rprefix id (length d) ++ d.
+Proof. unfold record, rprefix. rewrite <- !app_assoc. reflexivity. Qed.
+
+Lemma rprefix_length id L : length id = oid_size -> length (rprefix id L) = combined_data_off.
+Proof. intros H. unfold rprefix, be32. rewrite !app_length, H. reflexivity. Qed.
+
+Lemma record_length id d : length id = oid_size -> length (record id d) = combined_data_off + length d.
+Proof. intros H. rewrite record_eq, app_length, rprefix_length by assumption. reflexivity. Qed.
 
 (* parseCombinedPrefix on anything that begins with a record prefix *)
-Lemma parse_record id d rest : wf_rec (id, d) ->
-  parse_combined_prefix (record id d ++ rest) = Some (id, length d).
+Lemma parse_rprefix id L rest : length id = oid_size -> (N.of_nat L < 4294967296)%N ->
+  parse_combined_prefix (rprefix id L ++ rest) = Some (id, L).
 Proof.
-  intros [Hid Hd]. simpl in Hid, Hd. unfold parse_combined_prefix.
-  assert (L : (length (record id d ++ rest) <? combined_data_off) = false).
-  { apply Nat.ltb_ge. rewrite app_length, record_length, Hid. cbv [combined_data_off oid_size]. lia. }
-  rewrite L. unfold record. simpl app.
-  rewrite N.eqb_refl. simpl andb.
-  cbv [combined_id_off combined_len_off combined_data_off]. simpl skipn.
+  intros Hid Hd. unfold parse_combined_prefix.
+  assert (LL : (length (rprefix id L ++ rest) <? combined_data_off) = false).
+  { apply Nat.ltb_ge. rewrite app_length, rprefix_length by assumption. lia. }
+  rewrite LL. unfold rprefix. simpl app.
+  cbv iota beta. rewrite N.eqb_refl. simpl andb.
+  cbv [combined_id_off combined_len_off combined_data_off].
+  set (X := (id ++ be32 L) ++ rest).
+  change (skipn 2 (combined_prefix :: 0%N :: X)) with X.
+  change (skipn 34 (combined_prefix :: 0%N :: X)) with (skipn 32 X).
+  change (34 - 2) with 32. change (38 - 34) with 4. unfold X.
   f_equal. f_equal.
   - rewrite <- app_assoc. apply firstn_exact. rewrite Hid. reflexivity.
-  - change 32 with oid_size. rewrite <- Hid. rewrite <- !app_assoc. rewrite skipn_exact by reflexivity.
+  - rewrite <- app_assoc. rewrite skipn_exact by (rewrite Hid; reflexivity).
     unfold be32. simpl firstn. apply be32_roundtrip. assumption.
 Qed.
 
-Lemma records_length_ge rs : length rs <= length (records rs).
+Lemma records_length_ge rs : Forall wf_rec rs -> length rs <= length (records rs).
 Proof.
-  induction rs as [|r rs IH]; simpl; [lia|]. rewrite app_length, record_length. lia.
+  induction 1 as [|r rs [W _] _ IH]; [simpl; lia|].
+  change (records (r :: rs)) with (record (fst r) (snd r) ++ records rs).
+  rewrite app_length, record_length by assumption. simpl length. cbv [combined_data_off]. lia.
 Qed.
 
 (* ---- extractCombinedObject ---------------------------------------------------------------- *)
@@ -118,41 +135,14 @@ Lemma extract_loop_found dec id whole : forall rs fuel tail comb r,
   extract_loop fuel dec id (records rs ++ tail) whole comb = of_dec (decompress dec (snd r)).
 Proof.
   induction rs as [|[id0 d0] rs IH]; intros fuel tail comb r W F NE LE; [discriminate|].
-  inversion W as [|? ? W0 W']; subst.
+  inversion W as [|? ? W0 W']; subst. destruct W0 as [Hid Hd]. simpl in Hid, Hd.
   destruct fuel as [|fuel]; [simpl in LE; lia|].
-  simpl records. rewrite <- app_assoc.
+  change (records ((id0, d0) :: rs)) with (record id0 d0 ++ records rs). rewrite record_eq, <- !app_assoc.
   cbn [extract_loop].
-  assert (Lr : length (record id0 d0) = combined_data_off + length d0).
-  { rewrite record_length. destruct W0 as [Hid _]. simpl in Hid. rewrite Hid. reflexivity. }
-  assert (Split : record id0 d0 = firstn combined_data_off (record id0 d0) ++ d0).
-  { unfold record at 1. rewrite !app_assoc. f_equal. unfold record. rewrite !app_assoc.
-    rewrite firstn_exact; [reflexivity|]. rewrite !app_length. destruct W0 as [Hid _]. simpl in Hid. rewrite Hid. reflexivity. }
-  set (pre := firstn combined_data_off (record id0 d0)) in *.
-  assert (Lpre : length pre = combined_data_off).
-  { unfold pre. rewrite firstn_length. lia. }
-  rewrite Split, <- !app_assoc.
-  rewrite (firstn_exact pre _ _ Lpre), (skipn_exact pre _ _ Lpre).
+  pose proof (rprefix_length id0 (length d0) Hid) as Lpre.
+  rewrite (firstn_exact _ _ _ Lpre), (skipn_exact _ _ _ Lpre).
   rewrite Lpre, Nat.ltb_irrefl.
-  assert (P : parse_combined_prefix pre = Some (id0, length d0)).
-  { pose proof (parse_record id0 d0 [] W0) as P. rewrite app_nil_r in P.
-    unfold parse_combined_prefix in *. rewrite Lr in P. rewrite Lpre.
-    replace (combined_data_off + length d0 <? combined_data_off) with (combined_data_off <? combined_data_off) in P
-      by (symmetry; rewrite !Nat.ltb_irrefl || (rewrite Nat.ltb_irrefl; apply Nat.ltb_ge; lia)).
-    rewrite Nat.ltb_irrefl in *.
-    rewrite Split in P. unfold pre in *.
-    destruct (firstn combined_data_off (record id0 d0)) as [|b0 [|b1 q]] eqn:Eq; try (simpl in Lpre; discriminate).
-    simpl app in P. destruct ((b0 =? combined_prefix)%N && (b1 =? 0)%N)%bool; [|discriminate].
-    inversion P as [[P1 P2]]. f_equal. f_equal.
-    - rewrite P1. rewrite <- P1 at 2.
-      change (b0 :: b1 :: q ++ d0) with ((b0 :: b1 :: q) ++ d0).
-      rewrite skipn_app_le by (simpl in *; cbv [combined_id_off]; lia).
-      rewrite firstn_app_le; [reflexivity|].
-      rewrite skipn_length. simpl in Lpre |- *. cbv [combined_len_off combined_id_off combined_data_off] in *. lia.
-    - change (b0 :: b1 :: q ++ d0) with ((b0 :: b1 :: q) ++ d0) in P2.
-      rewrite skipn_app_le in P2 by (simpl in *; cbv [combined_len_off combined_data_off] in *; lia).
-      rewrite firstn_app_le in P2; [exact P2|].
-      rewrite skipn_length. simpl in Lpre |- *. cbv [combined_len_off combined_id_off combined_data_off] in *. lia. }
-  rewrite P.
+  pose proof (parse_rprefix id0 (length d0) [] Hid Hd) as P. rewrite app_nil_r in P. rewrite P.
   unfold find_rec in F. simpl in F.
   destruct (bytes_eqb id0 id) eqn:E.
   - inversion F; subst r. simpl in NE |- *.
@@ -201,5 +191,252 @@ Lemma extract_records dec id rs tail r :
   extract_combined_object dec id (records rs ++ tail) = of_dec (decompress dec (snd r)).
 Proof.
   intros W F NE. unfold extract_combined_object. apply extract_loop_found; auto.
-  rewrite app_length. pose proof (records_length_ge rs). lia.
+  rewrite app_length. pose proof (records_length_ge rs W). lia.
+Qed.
+
+(* ---- readHeader: the buffered head and the stream after it ---------------------------------- *)
+
+(* what the head reader hands on for stored bytes D: the first npfbl bytes and a stream
+   that delivers exactly the rest of D (not what follows D in the file) *)
+Definition head_split (D initial : bytes) (stream : rdr) : Prop :=
+  initial = firstn npfbl D /\ drain stream = skipn npfbl D.
+
+Lemma firstn_min_len {A} (d : list A) n : firstn (Nat.min (length d) n) d = firstn n d.
+Proof.
+  destruct (Nat.le_ge_cases n (length d)) as [H|H].
+  - rewrite Nat.min_r by assumption. reflexivity.
+  - rewrite Nat.min_l by assumption. rewrite firstn_all, firstn_all2 by assumption. reflexivity.
+Qed.
+
+Lemma skipn_min_len {A} (d : list A) n : skipn (Nat.min (length d) n) d = skipn n d.
+Proof.
+  destruct (Nat.le_ge_cases n (length d)) as [H|H].
+  - rewrite Nat.min_r by assumption. reflexivity.
+  - rewrite Nat.min_l by assumption. rewrite skipn_all, skipn_all2 by assumption. reflexivity.
+Qed.
+
+Lemma drain_lim_file fr (l m : nat) : drain (RLim (RFile fr) (Z.of_nat l - Z.of_nat m)) = firstn (l - m) fr.
+Proof. simpl. rewrite firstnN_spec. f_equal. lia. Qed.
+
+(* the end of readHeader's loop: the asked record starts at [offset] in the window *)
+Definition finish (cap : nat) (w fr : bytes) (offset l : nat) : hres :=
+  let size := Nat.min (offset + l) (offset + npfbl) in
+  if cap <? size then HPanic
+  else
+    let need := size - length w in
+    if length fr <? need then HErr
+    else
+      let w' := w ++ firstn need fr in
+      let fr' := skipn need fr in
+      HOk (firstn (size - offset) (skipn offset w'))
+          (RLim (RFile fr') (Z.of_nat l - Z.of_nat (size - offset))).
+
+Lemma finish_ok cap w fr offset dat X :
+  offset + npfbl <= cap -> offset <= length w -> length w < offset + npfbl ->
+  skipn offset (w ++ fr) = dat ++ X ->
+  exists initial stream, finish cap w fr offset (length dat) = HOk initial stream /\ head_split dat initial stream.
+Proof.
+  intros Hcap Ho Hn Hs. unfold finish.
+  set (l := length dat). set (m := Nat.min l npfbl).
+  assert (Esz : Nat.min (offset + l) (offset + npfbl) = offset + m) by (unfold m; lia).
+  rewrite Esz.
+  replace (cap <? offset + m) with false by (symmetry; apply Nat.ltb_ge; unfold m; lia).
+  assert (Ltot : offset + l <= length w + length fr).
+  { assert (H : length (skipn offset (w ++ fr)) = length (dat ++ X)) by congruence.
+    rewrite skipn_length, !app_length in H. fold l in H. lia. }
+  set (need := offset + m - length w).
+  replace (length fr <? need) with false by (symmetry; apply Nat.ltb_ge; unfold need, m; lia).
+  replace (offset + m - offset) with m by lia.
+  eexists _, _. split; [reflexivity|].
+  set (w' := w ++ firstn need fr). set (fr' := skipn need fr).
+  assert (Ew : w' ++ fr' = w ++ fr) by (unfold w', fr'; rewrite <- app_assoc, firstn_skipn; reflexivity).
+  assert (Lw' : length w' = length w + need) by (unfold w'; rewrite app_length, firstn_length; unfold need, m; lia).
+  assert (Es : skipn offset w' ++ fr' = dat ++ X) by (rewrite <- skipn_app_le by lia; rewrite Ew; exact Hs).
+  assert (E1 : firstn m (skipn offset w') = firstn m dat).
+  { rewrite <- (firstn_app_le _ fr') by (rewrite skipn_length; unfold need, m in *; lia).
+    rewrite Es. apply firstn_app_le. unfold m, l; lia. }
+  unfold head_split. split.
+  - rewrite E1. unfold m, l. apply firstn_min_len.
+  - rewrite drain_lim_file. rewrite <- (skipn_min_len dat npfbl). fold l. fold m.
+    destruct (Nat.eq_dec need 0) as [N0|N0].
+    + assert (M : m = l) by (unfold need, m in *; lia). rewrite M, Nat.sub_diag. simpl.
+      unfold l. rewrite skipn_all. reflexivity.
+    + assert (Lsk : length (skipn offset w') = m) by (rewrite skipn_length; unfold need, m in *; lia).
+      assert (Efr : fr' = skipn m (dat ++ X)) by (rewrite <- Es; symmetry; apply skipn_exact; exact Lsk).
+      rewrite Efr. rewrite skipn_app_le by (unfold m, l; lia).
+      apply firstn_exact. rewrite skipn_length. reflexivity.
+Qed.
+
+Lemma scan_match cap id fuel w fr offset oid dat X :
+  2 * npfbl <= cap -> offset <= length w -> length w < offset + npfbl ->
+  skipn offset (w ++ fr) = dat ++ X -> bytes_eqb oid id = true -> dat <> [] ->
+  exists initial stream, scan_loop (S fuel) cap id w fr offset oid (length dat) = HOk initial stream /\
+                         head_split dat initial stream.
+Proof.
+  intros Hcap Ho Hn Hs E NE. cbn [scan_loop]. rewrite E.
+  destruct (Nat.eqb (length dat) 0) eqn:Z. { apply Nat.eqb_eq in Z. destruct dat; [congruence|discriminate]. }
+  destruct (cap <? offset + npfbl) eqn:Sh.
+  - cbv iota beta.
+    match goal with |- exists i s, ?T = _ /\ _ => change T with (finish cap (skipn offset w) fr 0 (length dat)) end.
+    apply (finish_ok cap (skipn offset w) fr 0 dat X).
+    + lia.
+    + lia.
+    + rewrite skipn_length. lia.
+    + simpl. rewrite <- skipn_app_le by assumption. exact Hs.
+  - cbv iota beta. apply Nat.ltb_ge in Sh.
+    match goal with |- exists i s, ?T = _ /\ _ => change T with (finish cap w fr offset (length dat)) end.
+    apply (finish_ok cap w fr offset dat X); assumption.
+Qed.
+
+Lemma scan_step cap id fuel w fr offset oid dat id' d' Y :
+  2 * npfbl <= cap -> offset <= length w -> length w < offset + npfbl ->
+  skipn offset (w ++ fr) = dat ++ record id' d' ++ Y -> wf_rec (id', d') -> bytes_eqb oid id = false ->
+  exists w2 fr2 off2,
+    scan_loop (S fuel) cap id w fr offset oid (length dat) = scan_loop fuel cap id w2 fr2 off2 id' (length d') /\
+    off2 <= length w2 /\ length w2 < off2 + npfbl /\ skipn off2 (w2 ++ fr2) = d' ++ Y.
+Proof.
+  intros Hcap Ho Hn Hs [Hid Hd] E. simpl in Hid, Hd. cbn [scan_loop]. rewrite E.
+  pose proof npfbl_ge as G. pose proof (rprefix_length id' (length d') Hid) as Lp.
+  set (l := length dat). set (o2 := offset + l). set (n := length w).
+  assert (S2 : skipn o2 (w ++ fr) = rprefix id' (length d') ++ d' ++ Y).
+  { unfold o2. rewrite Nat.add_comm, <- skipn_skipn', Hs. rewrite skipn_exact by reflexivity.
+    rewrite record_eq, <- app_assoc. reflexivity. }
+  destruct (n <? o2 + combined_data_off) eqn:C.
+  - apply Nat.ltb_lt in C.
+    set (fr1 := if n <? o2 then skipn (o2 - n) fr else fr). set (w1 := skipn (Nat.min o2 n) w).
+    assert (E1 : w1 ++ fr1 = skipn o2 (w ++ fr)).
+    { rewrite skipn_app. unfold w1, fr1. fold n. destruct (n <? o2) eqn:D.
+      - apply Nat.ltb_lt in D. rewrite Nat.min_r by lia. unfold n. rewrite skipn_all. rewrite (skipn_all2 (n:=o2) w) by (fold n; lia). reflexivity.
+      - apply Nat.ltb_ge in D. rewrite Nat.min_l by lia. replace (o2 - n) with 0 by lia. reflexivity. }
+    assert (Lw1 : length w1 < combined_data_off). { unfold w1; rewrite skipn_length; fold n. Show. lia. }
+    replace (cap <? length w1 + npfbl) with false by (symmetry; apply Nat.ltb_ge; lia).
+    assert (Ltot : combined_data_off <= length w1 + length fr1).
+    { assert (H : length (w1 ++ fr1) = length (rprefix id' (length d') ++ d' ++ Y)) by congruence.
+      rewrite !app_length, Lp in H. lia. }
+    destruct (firstn npfbl fr1) as [|c0 ch] eqn:Ch.
+    { exfalso. assert (H : length (firstn npfbl fr1) = 0) by (rewrite Ch; reflexivity).
+      rewrite firstn_length in H. lia. }
+    rewrite <- Ch.
+    set (w2 := w1 ++ firstn npfbl fr1). set (fr2 := skipn npfbl fr1).
+    assert (E2 : w2 ++ fr2 = rprefix id' (length d') ++ d' ++ Y).
+    { unfold w2, fr2. rewrite <- app_assoc, firstn_skipn, E1. exact S2. }
+    assert (Lw2 : combined_data_off <= length w2 /\ length w2 < combined_data_off + npfbl).
+    { unfold w2. rewrite app_length, firstn_length. lia. }
+    replace (length w2 <? combined_data_off) with false by (symmetry; apply Nat.ltb_ge; lia).
+    destruct (app_prefix_split w2 fr2 _ _ E2) as [z [Ez Ey]]; [lia|].
+    assert (P : parse_combined_prefix w2 = Some (id', length d')) by (rewrite Ez; apply parse_rprefix; assumption).
+    rewrite P. exists w2, fr2, combined_data_off. split; [reflexivity|].
+    split; [lia|]. split; [lia|]. rewrite E2. apply skipn_exact. exact Lp.
+  - apply Nat.ltb_ge in C.
+    assert (E3 : skipn o2 w ++ fr = rprefix id' (length d') ++ d' ++ Y) by (rewrite <- skipn_app_le by (fold n; lia); exact S2).
+    destruct (app_prefix_split (skipn o2 w) fr _ _ E3) as [z [Ez _]]; [rewrite skipn_length; fold n; lia|].
+    assert (P : parse_combined_prefix (skipn o2 w) = Some (id', length d')) by (rewrite Ez; apply parse_rprefix; assumption).
+    rewrite P. exists w, fr, (o2 + combined_data_off). split; [reflexivity|].
+    split; [fold n; lia|]. split; [fold n; lia|].
+    rewrite Nat.add_comm, <- skipn_skipn', S2. apply skipn_exact. exact Lp.
+Qed.
+
+Lemma scan_loop_found cap id : 2 * npfbl <= cap ->
+  forall rs fuel w fr offset oid dat tail r,
+  Forall wf_rec rs -> offset <= length w -> length w < offset + npfbl ->
+  skipn offset (w ++ fr) = dat ++ records rs ++ tail ->
+  find_rec id ((oid, dat) :: rs) = Some r -> snd r <> [] -> length rs < fuel ->
+  exists initial stream, scan_loop fuel cap id w fr offset oid (length dat) = HOk initial stream /\
+                         head_split (snd r) initial stream.
+Proof.
+  intros Hcap. induction rs as [|[id' d'] rs IH]; intros fuel w fr offset oid dat tail r W Ho Hn Hs F NE LF;
+    (destruct fuel as [|fuel]; [simpl in LF; lia|]); unfold find_rec in F; cbn [find fst] in F;
+    destruct (bytes_eqb oid id) eqn:E.
+  - inversion F; subst r. eapply scan_match; eauto.
+  - discriminate.
+  - inversion F; subst r. eapply scan_match; eauto.
+  - inversion W as [|? ? W0 W']; subst.
+    change (records ((id', d') :: rs)) with (record id' d' ++ records rs) in Hs. rewrite <- app_assoc in Hs.
+    destruct (scan_step cap id fuel w fr offset oid dat id' d' (records rs ++ tail) Hcap Ho Hn Hs W0 E)
+      as (w2 & fr2 & off2 & Eq & A & B & C).
+    rewrite Eq. eapply IH; eauto. simpl in LF. lia.
+Qed.
+
+Lemma read_header_combined cap id rs tail r :
+  2 * npfbl <= cap -> Forall wf_rec rs -> find_rec id rs = Some r -> snd r <> [] ->
+  exists i st, read_header cap id (records rs ++ tail) = HOk i st /\ head_split (snd r) i st.
+Proof.
+  intros Hcap W F NE. destruct rs as [|[id0 d0] rs]; [discriminate|].
+  inversion W as [|? ? [Hid Hd] W']; subst. simpl in Hid, Hd.
+  pose proof npfbl_ge as G. pose proof (rprefix_length id0 (length d0) Hid) as Lp.
+  set (file := records ((id0, d0) :: rs) ++ tail).
+  assert (Ef : file = rprefix id0 (length d0) ++ d0 ++ records rs ++ tail).
+  { unfold file. change (records ((id0, d0) :: rs)) with (record id0 d0 ++ records rs).
+    rewrite record_eq, <- !app_assoc. reflexivity. }
+  unfold read_header. set (w := firstn npfbl file). set (fr := skipn npfbl file).
+  assert (Ewf : w ++ fr = file) by apply firstn_skipn.
+  assert (Lf : combined_data_off <= length file) by (rewrite Ef, app_length, Lp; lia).
+  assert (Lw : combined_data_off <= length w /\ length w <= npfbl) by (unfold w; rewrite firstn_length; lia).
+  replace (length w <? combined_data_off) with false by (symmetry; apply Nat.ltb_ge; lia).
+  assert (E2 : w ++ fr = rprefix id0 (length d0) ++ d0 ++ records rs ++ tail) by congruence.
+  destruct (app_prefix_split w fr _ _ E2) as [z [Ez _]]; [lia|].
+  assert (P : parse_combined_prefix w = Some (id0, length d0)) by (rewrite Ez; apply parse_rprefix; assumption).
+  rewrite P. apply (scan_loop_found cap id Hcap rs _ w fr combined_data_off id0 d0 tail r); auto; try lia.
+  - rewrite E2. apply skipn_exact. exact Lp.
+  - pose proof (records_length_ge rs W'). rewrite Ef, !app_length. lia.
+Qed.
+
+Lemma read_header_plain cap id d : no_prefix d = true ->
+  exists i st, read_header cap id d = HOk i st /\ head_split d i st.
+Proof.
+  intros G. unfold read_header.
+  destruct (length (firstn npfbl d) <? combined_data_off).
+  - eexists _, _. split; [reflexivity|]. split; reflexivity.
+  - rewrite (no_prefix_parse d npfbl G). eexists _, _. split; [reflexivity|]. split; reflexivity.
+Qed.
+
+(* ---- preprocessStreamHead, _readObject, readObject -------------------------------------------- *)
+
+Definition delivered (i : bytes) (st : option rdr) : bytes :=
+  i ++ match st with Some r => drain r | None => [] end.
+
+Lemma preprocess_ok dec chunk D X i st : decompress dec D = Some X -> head_split D i st ->
+  exists i' st', preprocess dec chunk i st = OOk i' st' /\ delivered i' st' = X.
+Proof.
+  intros HD [Hi Hs]. unfold preprocess, delivered.
+  destruct (length i <? npfbl) eqn:L.
+  - apply Nat.ltb_lt in L. assert (ED : i = D). { subst i. rewrite firstn_length in L. apply firstn_all2. lia. }
+    rewrite ED, HD. eexists _, _. split; [reflexivity|]. apply app_nil_r.
+  - apply Nat.ltb_ge in L. pose proof npfbl_ge4 as G4.
+    assert (LD : npfbl <= length D) by (subst i; rewrite firstn_length in L; lia).
+    assert (IC : is_compressed i = is_compressed D).
+    { unfold is_compressed. subst i. rewrite firstn_length, firstn_firstn.
+      rewrite (Nat.min_l 4 npfbl) by lia.
+      replace (4 <=? Nat.min npfbl (length D)) with true by (symmetry; apply Nat.leb_le; lia).
+      replace (4 <=? length D) with true by (symmetry; apply Nat.leb_le; lia). reflexivity. }
+    rewrite IC. unfold decompress in HD.
+    assert (EA : i ++ drain st = D) by (rewrite Hi, Hs; apply firstn_skipn).
+    destruct (is_compressed D).
+    + rewrite EA, HD. eexists _, _. split; [reflexivity|]. simpl. apply firstn_skipn.
+    + inversion HD; subst X. eexists _, _. split; [reflexivity|]. exact EA.
+Qed.
+
+Lemma read_object__ok dec chunk cap id file D X :
+  2 * npfbl <= cap ->
+  (exists i st, read_header cap id file = HOk i st /\ head_split D i st) ->
+  decompress dec D = Some X ->
+  exists i st, read_object_ dec chunk cap id file = OOk i st /\ delivered i st = X.
+Proof.
+  intros Hcap (i & st & E & HS) HD. unfold read_object_.
+  replace (cap <? 2 * npfbl) with false by (symmetry; apply Nat.ltb_ge; lia).
+  rewrite E. eapply preprocess_ok; eauto.
+Qed.
+
+Lemma read_object_ok dec chunk cap id file D X :
+  2 * npfbl <= cap ->
+  (exists i st, read_header cap id file = HOk i st /\ head_split D i st) ->
+  decompress dec D = Some X ->
+  exists i st, read_object dec chunk cap id file = OOk i st /\ delivered i st = X.
+Proof.
+  intros Hcap H HD. destruct (read_object__ok dec chunk cap id file D X Hcap H HD) as (i & st & E & T).
+  unfold read_object. rewrite E. unfold copy_out, delivered in *.
+  destruct (cap <? length i).
+  - eexists _, _. split; [reflexivity|]. simpl. rewrite app_assoc, firstn_skipn.
+    destruct st; simpl in *; exact T.
+  - eexists _, _. split; [reflexivity|]. destruct st; simpl in *; exact T.
 Qed.
